@@ -128,8 +128,77 @@ WriteRef(r, g, k, v) ==
 (*   pk  a mapping whose KEY is a !!python/object with __hash__ / __eq__    *)
 (*       over its state (hashed when put into the mapping: complete or      *)
 (*       still empty)             yk  the same with a YAMLObject subclass   *)
+(* nested collections the LIBRARY constructs in two steps (construct_yaml_  *)
+(* seq / construct_yaml_map yield the empty container and fill it when the  *)
+(* document's generators are drained) - what is PENDING while a later       *)
+(* sibling is constructed:                                                  *)
+(*   gs  [sx]            benign                                             *)
+(*   gr  [*r]            aliases the ROOT (anchored &r): fine once the root *)
+(*                       is registered, "unconstructable recursive node"    *)
+(*                       while construct_object(root) is still in progress  *)
+(*   ge  [!undefined z]  its second step fails with a ConstructorError      *)
+(*   pc  {ck: pcv}       (first child) its second step invokes the user     *)
+(*                       constructor of a tag a user PATH resolver supplies *)
+(*   ic  plain scalar typed by a user IMPLICIT resolver whose constructor   *)
+(*       is a counted user callback                                         *)
+(* ROOT kinds (RootKindOf): "sq" the root is a plain block sequence - its   *)
+(* children are constructed by the root's own generator, inside the drain   *)
+(* loop of construct_document; "uq" the root carries the tag of a           *)
+(* non-generator user constructor that calls construct_sequence(node) - the *)
+(* children are constructed INSIDE construct_object(root), with the root in *)
+(* recursive_objects and the two-step children pending until it returns.    *)
+(* The family  <root>_<pending>_<point>  is the product                     *)
+(*   root kind x what is pending x the user callback that is the fault point*)
 (***************************************************************************)
+FamRoots  == {"sq", "uq"}
+FamPend   == {"none", "gs", "cg", "pc", "gr", "ge"}    \* nothing / benign / observable callback (user generator; library
+                                                       \* mapping over a resolver-dependent user constructor) / failing
+FamPoints == {"cu", "cg", "cm", "ic", "yo"}            \* immediate / generator (phase 1, phase 2) / multi / resolver-dependent / from_yaml
+FamDocs == {[name |-> r \o "_" \o p \o "_" \o q, root |-> r, pend |-> p, point |-> q] : r \in FamRoots, p \in FamPend, q \in FamPoints}
+FamNames == {d.name : d \in FamDocs}
+FamOf(n) == CHOOSE d \in FamDocs : d.name = n
+RootKindOf(n) == IF n \in FamNames THEN FamOf(n).root ELSE "sq"
+RootAnchored(n) == n \in FamNames /\ FamOf(n).pend = "gr"
+(***************************************************************************)
+(* (C11) Documents given as ENCODED BYTES.  What the Reader does with a    *)
+(* byte input depends on things a str input does not have: the encoding,   *)
+(* how the caller's stream hands the bytes over, and where the characters  *)
+(* that take several bytes lie relative to the points at which the Reader  *)
+(* decodes what it has read so far (a character cut by such a point is     *)
+(* undecoded state that has to live in the per-call object).  The family   *)
+(*   <enc>_<form>_c<width><off>_<end>   is the product                     *)
+(*   enc    u8 | ule | ube        utf-8, utf-16-le / -be (with BOM)        *)
+(*   form   how a caller's stream (io = "file") answers read(n):           *)
+(*          f = n bytes (the Reader decodes after 2 reads, then after each)*)
+(*          r1 r2 r3 = at most 1 / 2 / 3 bytes (short reads);              *)
+(*          with io = "mem" the argument is the bytes object itself        *)
+(*   width  bytes of the multi-byte character (2-4; utf-16: unit / pair)   *)
+(*   off    bytes of that character BEFORE the decode point (form f; 0 =   *)
+(*          not cut: control) / shift of the whole text against the read   *)
+(*          grid (short reads)                                             *)
+(*   end    how a call on the document ends: ok, or failing in the scanner *)
+(*          (SE), parser (PE), composer (CE), constructor (KE) - with the  *)
+(*          multi-byte item "mb" (a plain scalar for every stage of L)     *)
+(*          still unread behind the failing item.                          *)
+(* Encoding and form of a call are those of its first document.            *)
+(***************************************************************************)
+EncEncs  == {"u8", "ule", "ube"}
+EncForms == {"f", "r1", "r2", "r3"}
+EncEnds  == {"ok", "SE", "PE", "CE", "KE"}
+EncWidths(e) == IF e = "u8" THEN {2, 3, 4} ELSE {2, 4}
+\* utf-16 code units are 2 bytes and full reads return an even number of bytes: only a surrogate pair can be cut, in the middle
+EncOffs(e, f, w) == IF e # "u8" /\ f \in {"f", "r2"} THEN {k \in 0 .. w - 1 : k % 2 = 0} ELSE 0 .. w - 1
+EncDocs == UNION {UNION {UNION {{[name |-> e \o "_" \o f \o "_c" \o ToString(w) \o ToString(k) \o "_" \o x,
+                                  enc |-> e, form |-> f, width |-> w, off |-> k, end |-> x] : k \in EncOffs(e, f, w), x \in EncEnds}
+                                : w \in EncWidths(e)} : f \in EncForms} : e \in EncEncs}
+EncNames == {d.name : d \in EncDocs}
+EncOf(n) == CHOOSE d \in EncDocs : d.name = n
+EncItems(x) == CASE x = "ok" -> <<"s", "mb">> [] x = "SE" -> <<"s", "SE", "mb">> [] x = "PE" -> <<"s", "PE", "mb">>
+                 [] x = "CE" -> <<"da", "ub", "mb">> [] x = "KE" -> <<"s", "KE", "mb">>
 Doc(n) ==
+  IF n \in FamNames THEN LET d == FamOf(n) IN
+     [yaml |-> FALSE, tag |-> FALSE, items |-> IF d.pend = "none" THEN <<d.point>> ELSE <<d.pend, d.point>>]
+  ELSE
   CASE n = "plain"    -> [yaml |-> FALSE, tag |-> FALSE, items |-> <<"s", "s">>]
     [] n = "scanerr"  -> [yaml |-> FALSE, tag |-> FALSE, items |-> <<"s", "SE">>]
     [] n = "parseerr" -> [yaml |-> FALSE, tag |-> FALSE, items |-> <<"s", "PE">>]
@@ -155,10 +224,13 @@ Doc(n) ==
     [] n = "keyed"    -> [yaml |-> FALSE, tag |-> FALSE, items |-> <<"pk">>]
     [] n = "ydeep"    -> [yaml |-> FALSE, tag |-> FALSE, items |-> <<"da", "ys">>]
     [] n = "ykeyed"   -> [yaml |-> FALSE, tag |-> FALSE, items |-> <<"s", "yk">>]
+    [] n = "yobj"     -> [yaml |-> FALSE, tag |-> FALSE, items |-> <<"yo", "s">>]
+    [] n \in EncNames -> [yaml |-> FALSE, tag |-> FALSE, items |-> EncItems(EncOf(n).end)]
 AllDocs == {"plain", "scanerr", "parseerr", "comperr", "ctorerr", "yamldir", "tagdir", "usetag", "stdtag", "anchors",
             "usealias", "rec", "pyobj", "deepfail", "ucall", "ugen", "umulti", "paths",
-            "pyplain", "slots", "deepalias", "newalias", "keyed", "ydeep", "ykeyed"}
-UserItems == {"cu", "cg", "cm"}
+            "pyplain", "slots", "deepalias", "newalias", "keyed", "ydeep", "ykeyed", "yobj"} \cup FamNames
+            \cup EncNames
+UserItems == {"cu", "cg", "cm", "yo"}            \* yo: a YAMLObject subclass whose from_yaml is the caller's (registered by the metaclass)
 PyItems == {"po", "sl", "ps", "pn", "pk"}        \* constructible by the unsafe classes only
 YObjItems == {"ys", "yk"}                        \* YAMLObject subclasses whose yaml_loader is the user classes
 AliasUsers == {"ps", "pn", "ys"}                 \* their text contains *a
@@ -197,9 +269,10 @@ Val(n) ==
     [] n = "uniau"    -> [tags |-> FALSE, ver |-> FALSE, au |-> TRUE,  items |-> <<"nu", "s">>]
     [] n = "pathsv"   -> [tags |-> FALSE, ver |-> FALSE, au |-> FALSE, items |-> <<"pv", "iv", "s">>]
     [] n = "scalarv"  -> [tags |-> FALSE, ver |-> FALSE, au |-> FALSE, items |-> <<"S">>]     \* the root IS a plain scalar
-AllVals == {"plainv", "shared", "shared2", "recv", "reprerr", "tagged", "usesve", "verv", "urepr", "umrepr", "uni", "uniau", "scalarv", "pathsv"}
+    [] n = "yrepr"    -> [tags |-> FALSE, ver |-> FALSE, au |-> FALSE, items |-> <<"ry", "s">>]   \* ry: object of a YAMLObject subclass with its own to_yaml
+AllVals == {"plainv", "shared", "shared2", "recv", "reprerr", "tagged", "usesve", "verv", "urepr", "umrepr", "uni", "uniau", "scalarv", "pathsv", "yrepr"}
 ASSUME Docs \subseteq AllDocs /\ Vals \subseteq AllVals
-UserValItems == {"ru", "rm"}
+UserValItems == {"ru", "rm", "ry"}
 
 Level(op) == CASE op = "scan" -> 1 [] op = "parse" -> 2 [] op \in {"compose", "compose_all"} -> 3
                [] op \in {"load", "load_all"} -> 4
@@ -257,7 +330,7 @@ ImplicitDocumentStart(o, g) ==
                          ELSE OwnRef(g.DEFAULT_TAGS @@ o.th.own)],     \* libyaml keeps its own table
    g |-> g, ev |-> <<"DOCSTART", "none", {}>>]
 
-HandleOf(it) == CASE it = "te" -> "e" [] it \in {"tb", "py", "dk"} \cup PyItems -> "!!" [] it \in UserItems \cup YObjItems -> "!" [] OTHER -> "-"
+HandleOf(it) == CASE it = "te" -> "e" [] it \in {"tb", "py", "dk"} \cup PyItems -> "!!" [] it \in UserItems \cup YObjItems \cup {"ge"} -> "!" [] OTHER -> "-"
 
 \* what the constructor of class cls makes of a node
 CtorOutcome(cls, it) ==
@@ -271,10 +344,14 @@ CtorOutcome(cls, it) ==
     [] it \in KeyItems /\ cls = "base" -> "err"             \* the tag is ignored, the key is a dict: "found unhashable key"
     [] it \in PyItems -> IF cls = "unsafe" THEN "obj:" \o it ELSE IF cls = "base" THEN "plain" ELSE "err"
     [] it \in YObjItems -> IF cls = "user" THEN "obj:" \o it ELSE IF cls = "base" THEN "plain" ELSE "err"
+    [] it = "pc" -> IF cls = "user" THEN "PC" ELSE "plain"
+    [] it = "ic" -> IF cls = "user" THEN "IC" ELSE "plain"
+    [] it = "gr" -> IF cls = "base" THEN "err" ELSE "plain"      \* BaseConstructor builds the children at once: the root is in progress
     [] OTHER -> "plain"
 Constructs(cls, it) == (it \in PyItems /\ cls = "unsafe") \/ (it \in YObjItems /\ cls = "user")
 TwoPhase(cls, it) == \/ (it = "rec" /\ cls # "base") \/ (it = "cg" /\ cls = "user")
                      \/ (it \in {"po", "sl", "ps", "ys"} /\ Constructs(cls, it))      \* construct_python_object, construct_yaml_object
+                     \/ (it \in {"gs", "gr", "ge", "pc"} /\ cls # "base")            \* construct_yaml_seq / construct_yaml_map
 
 (***************************************************************************)
 (* Python objects.  construct_python_object / construct_yaml_object yield  *)
@@ -304,13 +381,23 @@ SecondPhase(o, g, it) ==
       o2 == IF it = "po" /\ Leaked(g) THEN [o1 EXCEPT !.constructed[j] = @ \o "+leak"] ELSE o1     \* setattr of foreign items
       g2 == IF it = "sl" /\ Mutation = "shared_slotstate" THEN [g EXCEPT !.other = Put(@, SKey, "x,y")] ELSE g   \* wrong: slotstate.update(state) on the shared dict
   IN  [o |-> o2, g |-> g2]
-IsCallback(cls, it) == cls = "user" /\ it \in UserItems
+ResolverItems == {"ic"}          \* the tag comes from a user resolver, the constructor registered for it is a user callback
+IsCallback(cls, it) == cls = "user" /\ it \in UserItems \cup ResolverItems
+\* the second step of a two-step construction runs caller-supplied code: the rest of a user generator constructor; the
+\* library's mapping generator reaching the path-resolved value with its user constructor
+\* ("cgn": the user constructor of the node nested in the "cg" item, reached by the generator's construct_sequence)
+Phase2Callback(cls, it) == cls = "user" /\ it \in {"cg", "pc", "cgn"}
+\* the root of the current document is a node of a non-generator user constructor; construct_object(root) has registered
+\* it in recursive_objects (index 0) and has not returned yet
+UserRoot(o) == o.d >= 1 /\ o.d <= Len(o.src.docs) /\ RootKindOf(o.src.docs[o.d]) = "uq" /\ o.cls # "base"
+RootPending(o) == o.pc = "construct" /\ o.k = 0 /\ UserRoot(o) /\ 0 \notin o.recursive
 
 \* is the next step of o an invocation of something the caller supplied (the points where the environment may fail)?
 LInvocation(o) ==
   \/ o.pc \in {"docstart", "item"} /\ NeedsRead(o)
-  \/ o.pc = "construct" /\ o.k < Len(o.held) /\ IsCallback(o.cls, o.held[o.k + 1].it)
-  \/ o.pc = "drain" /\ o.sgens # <<>> /\ Head(o.sgens) = "cg"
+  \/ o.pc = "construct" /\ ~RootPending(o) /\ o.k < Len(o.held) /\ IsCallback(o.cls, o.held[o.k + 1].it)
+  \/ o.pc = "drain" /\ o.sgens # <<>> /\ Phase2Callback(o.cls, Head(o.sgens))
+  \/ RootPending(o) /\ o.cls = "user"                \* the user constructor of the root itself
 
 (***************************************************************************)
 (* The path-resolver stacks (resolver.py:93-117).  A class that registered *)
@@ -376,6 +463,7 @@ LStepCore(o, g, inj) ==
                  ELSE IF it = "rec" /\ "r" \in o.anchors THEN same(Raise(o1, "ComposerError"))
                  ELSE IF it \in {"ua"} \cup AliasUsers /\ "a" \notin o.anchors THEN same(Raise(o1, "ComposerError"))  \* undefined alias
                  ELSE IF it = "ub" /\ "b" \notin o.anchors THEN same(Raise(o1, "ComposerError"))
+                 ELSE IF it = "gr" /\ "r" \notin o.anchors THEN same(Raise(o1, "ComposerError"))
                  ELSE same([o1 EXCEPT !.anchors = @ \cup (IF it = "da" THEN {"a"} ELSE IF it = "rec" THEN {"r"} ELSE {}),
                                       !.nodes = Append(@, [it |-> it, tag |-> tag])])
     [] o.pc = "docend" ->
@@ -399,15 +487,21 @@ LStepCore(o, g, inj) ==
                         ELSE IF n.it \in KeyItems THEN same([o2 EXCEPT !.constructed = Append(@, KeyedOutcome(o, g, n.it))])
                         ELSE IF n.it = "pn" /\ Constructs(o.cls, n.it)        \* construct_sequence(node, deep=True) over [*a]
                              THEN same(DeepOverConstructed([o2 EXCEPT !.constructed = Append(@, oc)]))
+                        ELSE IF n.it = "ge" /\ TwoPhase(o.cls, n.it) /\ o.deep THEN same(Raise(o2, "ConstructorError"))
                         ELSE IF TwoPhase(o.cls, n.it) /\ o.deep               \* constructor.py:97-101: in deep mode the generator is run at once
                              THEN LET r == SecondPhase([o2 EXCEPT !.constructed = Append(@, oc)], g, n.it)
-                                  IN  [o |-> [r.o EXCEPT !.ninv = IF n.it = "cg" THEN @ + 1 ELSE @], g |-> r.g]
+                                  IN  [o |-> [r.o EXCEPT !.ninv = IF n.it = "cg" THEN @ + 2 ELSE IF Phase2Callback(o.cls, n.it) THEN @ + 1 ELSE @], g |-> r.g]
                         ELSE same([o2 EXCEPT !.constructed = Append(@, oc),
                                              !.sgens = IF TwoPhase(o.cls, n.it) THEN Append(@, n.it) ELSE @])
     [] o.pc = "drain" ->          \* construct_document: run the queued generators (constructor.py:56-61)
          IF o.sgens = <<>> THEN same([o EXCEPT !.pc = "creset"])
-         ELSE IF Head(o.sgens) = "cg" /\ inj THEN same(Raise([o EXCEPT !.injected = IF o.injected = 0 THEN o.ninv + 1 ELSE o.injected, !.ninj = o.ninj + 1, !.ninv = o.ninv + 1, !.sgens = Tail(@)], "INJ"))
-         ELSE SecondPhase([o EXCEPT !.sgens = Tail(@), !.ninv = IF Head(o.sgens) = "cg" THEN @ + 1 ELSE @], g, Head(o.sgens))
+         ELSE IF Phase2Callback(o.cls, Head(o.sgens)) /\ inj THEN same(Raise([o EXCEPT !.injected = IF o.injected = 0 THEN o.ninv + 1 ELSE o.injected, !.ninj = o.ninj + 1, !.ninv = o.ninv + 1, !.sgens = Tail(@)], "INJ"))
+         \* the library's own failures in a second step: an undefined tag inside; an alias of a node that is still being
+         \* constructed ("found unconstructable recursive node": only the root, only while construct_object(root) runs)
+         ELSE IF Head(o.sgens) = "ge" \/ (Head(o.sgens) = "gr" /\ 0 \in o.recursive)
+              THEN same(Raise([o EXCEPT !.sgens = Tail(@)], "ConstructorError"))
+         ELSE SecondPhase([o EXCEPT !.sgens = IF Head(o.sgens) = "cg" THEN <<"cgn">> \o Tail(@) ELSE Tail(@),
+                                    !.ninv = IF Phase2Callback(o.cls, Head(o.sgens)) THEN @ + 1 ELSE @], g, Head(o.sgens))
     [] o.pc = "creset" ->         \* construct_document: the three resets (constructor.py:62-64)
          LET o1 == [o EXCEPT !.constructed = <<>>, !.recursive = {}, !.held = <<>>, !.k = 0,
                              !.deep = IF Mutation = "deep_sticky" THEN @ ELSE FALSE]     \* wrong: "construct_object restores it itself"
@@ -418,7 +512,7 @@ LStepCore(o, g, inj) ==
          same([o EXCEPT !.disposed = TRUE, !.pc = "done", !.end = IF o.exc = "-" THEN "return" ELSE "raise:" \o o.exc])
     [] OTHER -> same(o)
 
-LStep(o, g, inj) ==
+LStepPaths(o, g, inj) ==
   IF ~(HasPaths(o.cls) /\ Level(o.op) >= 3) THEN LStepCore(o, g, inj)
   ELSE IF o.pc = "item" /\ o.i < Len(CurDoc(o).items) /\ ~NeedsRead(o) /\ RGet(o, g) # 1
             /\ CurDoc(o).items[o.i + 1] \notin {"SE", "PE"}
@@ -426,6 +520,51 @@ LStep(o, g, inj) ==
   ELSE LET r == LStepCore(o, g, inj) IN
        IF o.pc = "docstart" /\ r.o.pc = "item" /\ r.o.d = o.d + 1 THEN RSet(r.o, r.g, RGet(r.o, r.g) + 1)   \* descend_resolver(None, None)
        ELSE IF o.pc = "docend" /\ RGet(r.o, r.g) > 0 THEN RSet(r.o, r.g, RGet(r.o, r.g) - 1)                 \* ascend_resolver()
+       ELSE r
+
+(***************************************************************************)
+(* The root of the document (construct_document, constructor.py:54-65).    *)
+(*   data = self.construct_object(node)        \* may raise                 *)
+(*   while self.state_generators: ... drain ...                            *)
+(*   reset                                                                 *)
+(* A plain root ("sq") yields its empty list at once; its children are     *)
+(* constructed by its generator in the drain loop (pc "construct" stands   *)
+(* for that).  A root of a non-generator user constructor ("uq") is        *)
+(* invoked first (an invocation of caller-supplied code: nothing pending), *)
+(* then construct_sequence(node) constructs the children inside that call: *)
+(* the root stays in recursive_objects (0) and the two-step children stay  *)
+(* pending until it returns.  An exception raised there leaves             *)
+(* construct_document at once: the pending second steps are NOT run (no    *)
+(* `finally` around the drain loop), so no caller-supplied code runs after *)
+(* the failure and nothing can replace the exception.                      *)
+(* Wrong variant "drain_in_finally" (= seeded C19-M10): the drain loop and *)
+(* the resets moved into a `finally` around construct_object(root).        *)
+(* Wrong variant "drain_collects_errors" (= seeded C19-S1): the drain loop *)
+(* goes on after a failing second step and raises the LAST error at its    *)
+(* end.  Wrong variant "drain_on_release" (= seeded C19-S2): the entry      *)
+(* point completes the pending second steps before dispose(), also on the  *)
+(* error path.                                                             *)
+(***************************************************************************)
+DrainsAfterFailure(o, r) ==      \* o -> r.o is a step that raised out of the constructor
+  /\ o.pc \in {"construct", "drain"} /\ r.o.pc = "dispose"
+  /\ CASE Mutation = "drain_in_finally" -> o.pc = "construct" /\ 0 \in r.o.recursive
+        [] Mutation = "drain_collects_errors" -> o.pc = "drain" \/ 0 \notin r.o.recursive     \* raised inside the drain loop
+        [] Mutation = "drain_on_release" -> o.exc = "-"                                         \* the first failure of the call
+        [] OTHER -> FALSE
+LStep(o, g, inj) ==
+  IF RootPending(o) THEN
+     IF o.cls # "user" THEN [o |-> Raise(o, "ConstructorError"), g |-> g]        \* "could not determine a constructor for the tag"
+     ELSE IF inj THEN [o |-> Raise([o EXCEPT !.injected = IF o.injected = 0 THEN o.ninv + 1 ELSE o.injected, !.ninj = o.ninj + 1,
+                                             !.ninv = o.ninv + 1, !.recursive = @ \cup {0}], "INJ"), g |-> g]
+     ELSE [o |-> [o EXCEPT !.ninv = @ + 1, !.recursive = @ \cup {0}], g |-> g]
+  ELSE IF o.pc = "creset" /\ o.exc # "-" THEN      \* (wrong variants only) the resets, then the exception goes on
+     [o |-> [o EXCEPT !.constructed = <<>>, !.recursive = {}, !.held = <<>>, !.k = 0, !.deep = FALSE, !.pc = "dispose"], g |-> g]
+  ELSE LET r == LStepPaths(o, g, inj) IN
+       IF o.pc = "docstart" /\ r.o.pc = "item" /\ r.o.d = o.d + 1 /\ Level(o.op) >= 3 /\ RootAnchored(r.o.src.docs[r.o.d])
+       THEN [r EXCEPT !.o.anchors = @ \cup {"r"}]                                   \* compose_node registers the root's anchor first
+       ELSE IF o.pc = "construct" /\ r.o.pc = "drain" THEN [r EXCEPT !.o.recursive = @ \ {0}]     \* construct_object(root) returns
+       ELSE IF DrainsAfterFailure(o, r)
+       THEN [r EXCEPT !.o.pc = "drain"]                \* wrong: the pending second steps are run while the exception is in flight
        ELSE r
 
 LActionName(o) ==
@@ -795,7 +934,8 @@ Complete(s, gi, res, o1, g1, k) ==
              ELSE [gens EXCEPT ![gi] = [o |-> o1, n |-> k, step |-> @.step]]
   /\ last' = [t |-> s.t, faulted |-> s.fault > 0,
                callindep |-> V_CallIndep(s, res, k), documents |-> (nstep = 0 => V_Documents(s)),     \* state-independent: every argument occurs in a first step
-               transparent |-> V_FaultTransparency(s, res, o1), lifetime |-> V_Lifetime(s, o1)]
+               transparent |-> V_FaultTransparency(s, res, o1), lifetime |-> V_Lifetime(s, o1),
+               quiet |-> (s.fault > 0 => o1.ninv = o1.injected)]     \* L: no invocation of caller-supplied code after the first failure
   /\ hist' = IF KeepHist THEN Append(hist, [step |-> s, res |-> res]) ELSE hist
   /\ nstep' = nstep + 1
 
@@ -889,7 +1029,8 @@ MicroNext == \/ BeginCall \/ BeginNext \/ BeginClose \/ Open \/ Return \/ Fault
              \/ EmitterEmit \/ EmitDocumentStart \/ EmitEvent \/ Flush \/ LibyamlWrite \/ Finish \/ Dispose
 
 Init == /\ globals = Globals0 /\ gens = <<>> /\ cur = NoCur /\ hist = <<>> /\ nstep = 0
-        /\ last = [t |-> "init", faulted |-> FALSE, callindep |-> TRUE, documents |-> TRUE, transparent |-> TRUE, lifetime |-> TRUE]
+        /\ last = [t |-> "init", faulted |-> FALSE, callindep |-> TRUE, documents |-> TRUE, transparent |-> TRUE, lifetime |-> TRUE,
+                   quiet |-> TRUE]
 SpecMacro == Init /\ [][MacroNext]_vars
 SpecMicro == Init /\ [][MicroNext]_vars
 
@@ -916,6 +1057,11 @@ Lifetime ==
        \/ o.pc = "done"
        \/ (o.yielded /\ ~o.disposed)
   /\ cur.active => \A gi \in DOMAIN gens : gi # cur.gi => Stopped(gens[gi].o) \/ gens[gi].o.pc = "unstarted"
+\* L-level fact (NOT part of H: the statement allows e.g. writes while the exception unwinds, as long as the output stays
+\* a prefix): once an invocation of caller-supplied code has failed, the library makes no further invocation in that call.
+\* It is what makes the failure pass "cleanly" in the unchanged code: with a PERSISTENT fault a later invocation would
+\* fail too and its exception would replace the first one - that is how H_FaultTransparency sees such a change.
+L_QuietUnwinding == last.quiet
 \* per-document state is back to its initial value whenever a generator is suspended between two documents
 PerDocumentReset ==
   \A gi \in DOMAIN gens : LET o == gens[gi].o IN
